@@ -146,6 +146,10 @@ def models(I, files):
             e = s.heap[cidx]; eid = dr(I_, s, fld(e, 'Signature', 'keyid')).d['nid']
             alts.append(z3.And(eid == xid, z3.Bool(fresh_name('same_signature_bytes'))))
         return z3.Or(alts + [z3.BoolVal(False)])
+    def m_table_contains(I_, s, fr, c, a, d, de, rb):
+        m = dr(I_, s, a[0]); k = dr(I_, s, a[1])
+        if m.kind == 'fmap': return m.d['f'](k.d['nid']) != 0
+        return z3.Or([k.d['nid'] == dr(I_, s, ko).d['nid'] for ko, _ in m.d['entries']] + [z3.BoolVal(False)])
     def m_false(I_, s, fr, c, a, d, de, rb): return z3.BoolVal(False)
     def m_path_parent(I_, s, fr, c, a, d, de, rb): return mk_some(Obj('path', key='DIR'))
     def m_pathbuf_deref(I_, s, fr, c, a, d, de, rb): return a[0]
@@ -158,7 +162,7 @@ def models(I, files):
             (RXc(r'^<std::collections::hash_map::Iter<.*RoleType, RoleKeys> as Iterator>::next$'), stdm.m_iter_next),
             (RXc(r'as Iterator>::position::<'), scan('position')), (RXc(r'as Iterator>::any::<'), scan('any')), (RXc(r'^<std::slice::Iter<.*> as Iterator>::filter::<'), m_filter),
             (RXc(r'^<std::iter::Filter<.*> as Iterator>::count$'), scan('count')), (RXc(r'^Vec::<Decoded<Hex>>::remove$'), m_vec_remove), (RXc(r'^<Decoded<Hex> as PartialEq>::(eq|ne)$'), m_keyid_eq),
-            (RXc(r'^core::slice::<impl \[Decoded<Hex>\]>::contains$'), m_contains), (RXc(r'^core::slice::<impl \[(tough::schema::)?Signature\]>::contains$'), m_sig_contains), (RXc(r'^<Level as PartialOrd<LevelFilter>>::le$'), m_false), (RXc(r'^(std::path::)?Path::parent$'), m_path_parent),
+            (RXc(r'^core::slice::<impl \[Decoded<Hex>\]>::contains$'), m_contains), (RXc(r'^HashMap::<Decoded<Hex>, (tough::schema::key::)?Key>::contains_key::<'), m_table_contains), (RXc(r'^core::slice::<impl \[(tough::schema::)?Signature\]>::contains$'), m_sig_contains), (RXc(r'^<Level as PartialOrd<LevelFilter>>::le$'), m_false), (RXc(r'^(std::path::)?Path::parent$'), m_path_parent),
             (RXc(r'^<(std::path::)?PathBuf as Deref>::deref$'), m_pathbuf_deref)] + stdm.STD_MODELS
 
 def run_cmd(I, st, fn, args, files):
